@@ -106,6 +106,7 @@ func depthCase(prop string, ctx *core.Ctx, idx int) core.Result {
 	calcrun.SetStdin("")
 	ses := calcrun.NewSession()
 	ses.StepLimit = 400000000
+	ses.ForkLimit = 20000 // (a few thousand iterator contexts are forked legitimately; a runaway loop is cut short)
 	fail := func(mon, d string) core.Result {
 		res.Verdict = core.Violated
 		res.Viol = &core.Violation{Monitor: mon, Detail: d, Input: in}
